@@ -14,6 +14,16 @@ DevOf(d) ==
     [] d = "D_ttl0_node_panic" -> [panic |-> TRUE]
     [] d = "D_sigcache_ignores_time" -> [panic |-> TRUE]
     [] d = "D_extra_rrset_ignored" -> [state |-> AnswerO(NoInj(msg))]
+\* in some run after time had passed a short-lived signature is served that an
+\* earlier run (before time passed) had accepted: it sits in the signature
+\* cache as good (a panic there ends the behaviour in the real code)
+Logs == [i \in 1..Len(hist) |-> hist[i].adv] \o <<advlog>>
+LateBefore(r) == \E i \in 1..(r - 1) : hist[i].tp
+SigCacheStale ==
+  \E r \in 2..Len(Logs), i \in 1..Len(Logs) :
+     /\ i < r /\ LateBefore(r) /\ ~LateBefore(i)
+     /\ \E j \in 1..Len(Logs[r]), k \in 1..Len(Logs[i]) :
+           Logs[r][j].act = "ShortSig" /\ Logs[r][j] = Logs[i][k]
 DevSet ==
   (IF HasAct({"BadNsec3Label", "BadNsec3LabelSigned"}) THEN {"D_nsec3_label_expect"} ELSE {}) \cup
   (IF \E i \in 1..Len(advlog) : advlog[i].act = "ZeroTtl" /\ advlog[i].t # "ANS"
@@ -21,9 +31,7 @@ DevSet ==
   (IF Has(msg, "inj") THEN {"D_extra_rrset_ignored"} ELSE {}) \cup
   \* a short-lived signature that was accepted (and cached as good) before time
   \* passed is served again, now expired
-  (IF late /\ \E i \in 1..Len(hist), j \in 1..Len(advlog) :
-                 advlog[j].act = "ShortSig" /\ \E k \in 1..Len(hist[i].adv) : hist[i].adv[k] = advlog[j]
-   THEN {"D_sigcache_ignores_time"} ELSE {})
+  (IF SigCacheStale THEN {"D_sigcache_ignores_time"} ELSE {})
 
 SetToSeq(S) == CHOOSE f \in [1..Cardinality(S) -> S] : \A i, j \in DOMAIN f : i # j => f[i] # f[j]
 \* the admitted set, the machine's own verdict first
